@@ -978,6 +978,14 @@ def translate_all(repo):
         probs[ns + '.lean'] = pr
     import np2lean
     np2lean.translate_all(repo, files, probs)
+    # the context the bodies are read in (decorators, imports, module-level bindings, class headers, re-exports) must be the pinned one
+    import pins
+    for fn, pr in pins.check(repo).items():
+        if fn == '*':
+            for k in probs:
+                probs[k] = probs[k] + pr
+        elif fn in probs:
+            probs[fn] = probs[fn] + pr
     return files, probs
 
 
